@@ -321,7 +321,7 @@ func (c *c04state) shape() string {
 		}
 	}
 	// Known window: for some channel X of the tree the honest client's newest
-	// enabled state S is not what is registered, and after S was enabled no
+	// enabled state S is not what is registered, and after S was handed to the watcher no
 	// registered event for X with a lower version reached the honest watcher's
 	// subscription for X - the unmodified watcher compares versions only when
 	// such an event arrives, so it never had the occasion to register S.
@@ -343,9 +343,14 @@ func (c *c04state) shape() string {
 			continue
 		}
 		unregistered++
-		occasion := false
+		// the watcher knows S from the instant the client's Publish returned
+		// (the client publishes right after enabling, in the same goroutine; a
+		// descheduled goroutine can stretch that gap). A state that was never
+		// handed over is the client's omission and is not the known defect.
+		handed, ok := h.Rec.PublishedAt(cid, newest.Version)
+		occasion := !ok
 		for _, d := range p.w.Ledger.Deliveries(p.w.Ledger.FirstSubName(h.Name, cid)) {
-			if d.Registered && d.Version < newest.Version && d.At > newest.At {
+			if d.Registered && d.Version < newest.Version && d.At > handed {
 				occasion = true
 			}
 		}
